@@ -23,7 +23,9 @@ pub fn parse(
                     None,
                     header_span)?));
         }
-        else if let Ok(elem_size) = usize::from_str_radix(&name[1..], 10)
+        else if let Some(elem_size) = usize::from_str_radix(&name[1..], 10)
+            .ok()
+            .filter(|size| (*size as u64) <= util::BIGINT_MAX_BITS)
         {
             return Ok(asm::AstAny::DirectiveData(
                 asm::parser::directive_data::parse(
